@@ -10,7 +10,7 @@ RULE = ("corpus of repaired-defect witnesses first; exhaustive operation sequenc
         "implementation is judged by the extracted checker c12_window_ok / c12_queue_ok. distinct = distinct (config, implementation trace); "
         "non-trivial = the trace contains at least one PUBLISH/PUBREL written with QoS>0")
 EXTRACT_TAGS = ["session", "session2", "mid"]
-GENERATED_ITEMS = []
+GENERATED_ITEMS = ["msgstate:"]
 ASSUMPTIONS = [
     "whole-packet, never-blocking I/O (the fragmentation/partial-write independence is C05/C06)",
     "broker conformance as defined by Model.conforming (CONNACK first and once per connection; PUBACK/PUBREC/PUBCOMP only for a message in the matching wait state or for an unknown id)",
